@@ -77,6 +77,7 @@ impl Prop for C06 {
             ops,
             stream: None,
             config: desc,
+            hidden_faults: take_hidden_faults(),
         }
     }
 
@@ -287,9 +288,7 @@ fn judge_build(sc: &Scenario, build: Build, st: &mut Option<&mut Stats>) -> Opti
         },
     );
     if let Some(st) = st_ref.borrow_mut().as_deref_mut() {
-        for a in abs_ref.borrow().iter() {
-            st.histories.insert(a.history_hash());
-        }
+        st.histories.insert(combined_history(&abs_ref.borrow()));
     }
     result
 }
